@@ -76,6 +76,75 @@ pub fn verdict(sb: &Sandbox, files: &Files, cfg: (u64, u64, u64)) -> (Verdict, u
     (Verdict { whole, whole_diags, separate, separate_where }, procs)
 }
 
+/// Artifact-store configurations of the separate pipeline, on the legal twin: after a complete
+/// build, a dependent package P of D is rebuilt with two interface directories. When the
+/// directory searched first holds a `D.interface` that declares another package (the interface
+/// of some other package stored under D's name), the mismatching package declaration must be
+/// reported; with the directories the other way round the genuine file is found first and the
+/// build must succeed. Returns (class, description) of what went wrong, and the process count.
+fn store_configs(sb: &Sandbox, files: &Files, cfg: (u64, u64, u64)) -> (Vec<(String, String)>, u64, bool) {
+    let (entropy, _readdir, order) = cfg;
+    let mut out = Vec::new();
+    sb.materialise(files);
+    let layout = Layout::scan(files);
+    let mut op = Prng::new(order);
+    let Some(topo) = layout.topo(&mut op) else { return (out, 0, false) };
+    let mut ent = Prng::new(mix(&[entropy, 11]));
+    let sep = ops::separate_build(sb, &layout, &topo, &mut ent, &mut op, false);
+    let mut procs = topo.len() as u64 + 1;
+    if !sep.ok {
+        return (out, procs, false);
+    }
+    // P imports D; X is any other package (its interface will pose as D's)
+    let mut cands: Vec<(String, String, String)> = Vec::new();
+    for (pn, pk) in &layout.pkgs {
+        for d in &pk.imports {
+            if d == "Builtin" || d == pn || !layout.pkgs.contains_key(d) {
+                continue;
+            }
+            for x in layout.pkgs.keys() {
+                if x != d {
+                    cands.push((pn.clone(), d.clone(), x.clone()));
+                }
+            }
+        }
+    }
+    if cands.is_empty() {
+        return (out, procs, false);
+    }
+    let (pn, d, x) = cands[op.usize(cands.len())].clone();
+    let Some(posing) = sb.read(&format!("out/{x}.interface")) else { return (out, procs, false) };
+    sb.mkdir("vendor");
+    sb.write(&format!("vendor/{d}.interface"), &posing);
+    let pk = &layout.pkgs[&pn];
+    let build = |dirs: [&str; 2], ent: &mut Prng| {
+        let mut args = vec![ops::s("goml"), ops::s("build"), ops::s("--package"), pk.name.clone(), ops::s("--input")];
+        args.extend(pk.files.iter().map(|f| sb.path(f)));
+        for dd in dirs {
+            args.push(ops::s("--interface-path"));
+            args.push(sb.path(dd));
+        }
+        args.push(ops::s("--output"));
+        args.push(sb.path(&format!("out2/{}", pk.name)));
+        let spec = ProcSpec { entropy: ent.next_u64(), readdir: ent.next_u64(), ..Default::default() };
+        ops::goml(sb, &spec, args)
+    };
+    let first = build(["vendor", "out"], &mut ent);
+    let second = build(["out", "vendor"], &mut ent);
+    procs += 2;
+    match &first.exit {
+        Exit::Ok => out.push(("misdeclared-interface-accepted".to_string(), format!("C16: `build` of {pn} succeeds although the interface directory searched first holds {d}.interface declaring package {x} (a later directory has the genuine file)"))),
+        Exit::Panicked(m) => out.push(("crash".to_string(), format!("C16: `build` of {pn} panics on a {d}.interface that declares package {x}: {m}"))),
+        _ => {}
+    }
+    match &second.exit {
+        Exit::Ok => {}
+        Exit::Panicked(m) => out.push(("crash".to_string(), format!("C16: `build` of {pn} panics with a stray {d}.interface in a later search directory: {m}"))),
+        other => out.push(("legal-store-rejected".to_string(), format!("C16: `build` of {pn} fails although the genuine {d}.interface is found first on the interface path: {}", match other { Exit::Err(m) => sb.normalise(m).chars().take(200).collect::<String>(), o => o.class().to_string() }))),
+    }
+    (out, procs, true)
+}
+
 struct CaseResult {
     violations: Vec<Violation>,
     procs: u64,
@@ -84,6 +153,7 @@ struct CaseResult {
     sample: Option<Value>,
     applicable: bool,
     digest: String,
+    store_configs: u64,
 }
 
 fn check_case(sb: &Sandbox, opts: &Opts, idx: usize, orders: usize, forced: Option<(Files, Files, String, Illegal)>) -> CaseResult {
@@ -92,7 +162,7 @@ fn check_case(sb: &Sandbox, opts: &Opts, idx: usize, orders: usize, forced: Opti
     cfg.max_pkgs = cfg.max_pkgs.max(2);
     let proj = generate(&mut p, &cfg);
     let kind = ILLEGAL_KINDS[idx % ILLEGAL_KINDS.len()].clone();
-    let mut r = CaseResult { violations: Vec::new(), procs: 0, fingerprints: Vec::new(), kind: format!("{kind:?}"), sample: None, applicable: false, digest: String::new() };
+    let mut r = CaseResult { violations: Vec::new(), procs: 0, fingerprints: Vec::new(), kind: format!("{kind:?}"), sample: None, applicable: false, digest: String::new(), store_configs: 0 };
     let (twin, bad, desc, kind) = match forced {
         Some(f) => f,
         None => match inject(&proj, &kind, &mut p) {
@@ -160,6 +230,18 @@ fn check_case(sb: &Sandbox, opts: &Opts, idx: usize, orders: usize, forced: Opti
                 }
             }
         }
+        if k == 0 && r.violations.is_empty() {
+            let (probs, n3, ran) = store_configs(sb, &twin, c);
+            r.procs += n3;
+            r.store_configs += ran as u64;
+            r.digest = sha(format!("{}{:?}", r.digest, probs).as_bytes());
+            for (class, what) in probs {
+                let mut v = mk(&class, "separate", what);
+                v.key = json!({"class": class, "pipeline": "separate"});
+                v.replay["store_config"] = json!(true);
+                r.violations.push(v);
+            }
+        }
         if r.sample.is_none() {
             r.sample = Some(json!({"illegality": desc, "kind": format!("{kind:?}"), "twin_verdict": vt, "illegal_verdict": vb, "files": bad.keys().collect::<Vec<_>>()}));
         }
@@ -194,8 +276,10 @@ pub fn run(opts: &Opts) -> i32 {
     let mut violations = Vec::new();
     let mut per_kind: BTreeMap<String, u64> = BTreeMap::new();
     let mut applicable = 0u64;
+    let mut store_cfgs = 0u64;
     for r in results {
         ev.evaluations += r.procs;
+        store_cfgs += r.store_configs;
         if r.applicable {
             applicable += 1;
             *per_kind.entry(r.kind.clone()).or_insert(0) += 1;
@@ -211,6 +295,7 @@ pub fn run(opts: &Opts) -> i32 {
     for (k, v) in &per_kind {
         ev.fault(&format!("layout:{k}"), *v);
     }
+    ev.fault("store:interface-declaring-another-package-first-on-the-search-path", store_cfgs);
     ev.extra.insert("graphs".into(), json!(n));
     ev.extra.insert("graphs_with_injected_illegality".into(), json!(applicable));
     ev.extra.insert("orders_per_graph".into(), json!(orders));
